@@ -38,7 +38,7 @@ def budgets(tier):
 
 
 def generate(rng, tier, idx):
-    w = gen_world(rng, n_models=(1, 6), n_wav=(5, 14), n_filters=(2, 4), n_ap=(2, 4), n_par=(1, 2), allow_zero_band=True)
+    w = gen_world(rng, n_models=(1, 6), n_wav=(5, 14), n_filters=(1, 4), n_ap=(2, 4), n_par=(1, 2), allow_zero_band=True)
     w['ext_n'] = rng.choice([3, 8, 40])
     nf = len(w['filters'])
     nsrc = rng.randint(1, 12) if rng.random() < 0.5 else rng.randint(1, 4)
